@@ -37,7 +37,7 @@ m = {
     },
     "engines": [
         {"name": "verus", "path": "/verif/vf/verus.py", "serves_properties": sorted(k for k, v in props.PROPS.items() if v.get("units")),
-         "kind_free_text": "Verus 0.2026.09.13 on single-file units assembled each run from functions cut verbatim out of /repo/src with contracts spliced in (vf/assemble.py, transformations T1-T12 of DESIGN.md section 2)"},
+         "kind_free_text": "Verus 0.2026.09.13 on single-file units assembled each run from functions cut verbatim out of /repo/src with contracts spliced in (vf/assemble.py, transformations T1-T15 of DESIGN.md section 2)"},
         {"name": "kani", "path": "/verif/vf/kani.py", "serves_properties": sorted(k for k, v in props.PROPS.items() if v.get("kani")),
          "kind_free_text": "Kani 0.68 / CBMC 6.11 on a scratch copy of the real crate (default features): complete loop-free harnesses and function contracts over full-domain symbolic inputs; bounded stand-ins labelled as such; concrete playback for counterexamples"},
     ],
